@@ -1,10 +1,12 @@
-(* C17_Exh3.v — bounded-exhaustive check, pipeline shape of Query (three built-ins), two user names *)
+(* C17_Exh3.v — bounded-exhaustive check, pipeline shape of Query (three built-ins), two user names.
+   The built-ins are called b1, b2, b3: the model looks at names through String.eqb only, and short
+   names keep the evaluation (dominated by string comparisons) near half a minute. *)
 From Verif Require Import Base C17_Model C17_Check C17_Known C17_Proofs3.
 Open Scope string_scope.
 Open Scope list_scope.
 
 Definition alpha_query : alphabet :=
-  mk_alphabet ["gorm:query"; "gorm:preload"; "gorm:after_query"] ["u1"; "u2"].
+  mk_alphabet ["b1"; "b2"; "b3"] ["u1"; "u2"].
 
 Lemma exh_query_count : count_ext 3 alpha_query (builtin_steps (a_builtins alpha_query)) = 111715%N.
 Proof. vm_compute. reflexivity. Qed.
